@@ -48,6 +48,8 @@ PEERS = [
     ('a', 'ka', '10.0.0.1', 9001, 0, 0, True, 0),
     ('b', 'kb', '10.0.0.2', 9002, 71, 72, False, 2),
     ('c', 'kc', '10.0.0.3', 9003, 55, 0, True, 0),
+    # a device whose name extends another's: 'b' + 'kx' and 'bk' + 'x' read the same once joined without a separator
+    ('bk', 'x', '10.0.0.4', 9004, 13, 14, False, 1),
 ]
 
 
@@ -425,7 +427,7 @@ def deliver_case(kind, recv_bytes, msg, m, cuts, rng, addr=None):
     n = expected_reads(script, recv_bytes)
     addr = addr or {'b': '10.0.0.2', 'c': '10.0.0.3'}[urn]
     conn = mk_conn(script, calm_clock(rng, n + 1), addr,
-                   expect={'kind': 'deliver', 'urn': urn, 'type': ty, 'flags': fl, 'json': js, 'reads': n})
+                   expect={'kind': 'deliver', 'urn': urn, 'type': ty, 'flags': fl, 'json': js, 'reads': n, 'len': len(m), 'cuts': list(cuts)})
     return {'kind': kind, 'recv_bytes': recv_bytes, 'queue_cap': 0, 'msg': name, 'len': len(m), 'cuts': list(cuts),
             'sealed': [[m.hex(), pt]], 'jsons': [js], 'conns': [conn]}
 
@@ -615,8 +617,11 @@ def oracle_conn(case, conn, obs, rig, items_before):
     if ex.get('kind') == 'deliver':
         sig = 'marker-inside-ciphertext-at-read-boundary' if case['kind'].startswith('f9') else 'dropped-complete-message'
         if obs['out'] != 'accepted':
-            bad(sig, 'a complete valid %d-byte message cut at %s was not delivered: %s after %d reads'
-                % (case.get('len'), case.get('cuts'), obs['out'], obs['reads']))
+            nth = case['conns'].index(conn) if conn in case['conns'] else 0
+            bad(sig, 'a complete valid %s-byte message cut at %s was not delivered: %s after %d reads%s'
+                % (ex.get('len', case.get('len')), ex.get('cuts', case.get('cuts')), obs['out'], obs['reads'],
+                   (' (connection %d of %d on the same receiver; earlier ones: %s)' % (nth + 1, len(case['conns']), case.get('parts', [])[:nth]))
+                   if len(case['conns']) > 1 else ''))
             return v
         want_q = 1 if ex['type'] in (0, 2) else 0
         if len(new_items) != want_q:
